@@ -110,7 +110,12 @@ pub(crate) fn p_try_parse_response<const N: usize>(input: &[u8]) -> Result<Optio
             let status = StatusCode::from_u16(S_CODE.load(Ordering::Relaxed) as u16).unwrap();
             let version = if S_VERSION.load(Ordering::Relaxed) == 1 { Version::HTTP_10 } else { Version::HTTP_11 };
             // built exactly as hoot's glue builds it
-            let r = Response::builder().version(version).status(status).body(()).expect("a valid response");
+            let mut b = Response::builder().version(version).status(status);
+            if S_NHDR.load(Ordering::Relaxed) >= 1 {
+                let (n, v) = menu_header(S_HDR0.load(Ordering::Relaxed));
+                b = b.header(n, v);
+            }
+            let r = b.body(()).expect("a valid response");
             Ok(Some((S_CONSUMED.load(Ordering::Relaxed), r)))
         }
         2 => Err(Error::HttpParseTooManyHeaders),
